@@ -221,10 +221,22 @@ def run_check(pid, tier, seed, blocks, level='model_checking', assumptions=(),
 
     tot = Ctx(pid, tier, seed)
     per_block = collections.OrderedDict((b.name, collections.Counter()) for b in blocks)
+    budget = float(os.environ.get('VERIF_TIMEOUT_S') or (1500 if tier == 'quick' else 6 * 3600))
     if NPROC > 1:
         ctxm = mp.get_context('fork')
-        with ctxm.Pool(NPROC) as pool:
-            results = list(pool.imap_unordered(_run_shard, tasks, chunksize=1))
+        pool = ctxm.Pool(NPROC)
+        try:
+            ar = pool.map_async(_run_shard, tasks, chunksize=1)
+            try:
+                results = ar.get(timeout=budget)
+            except mp.TimeoutError:
+                pool.terminate()
+                print(f'HARNESS-TIMEOUT property={pid}: exploration did not finish within {budget:.0f}s (a hang in the code under test '
+                      f'or too large a bound); no verdict', file=sys.stderr)
+                return 2
+        finally:
+            pool.terminate()
+            pool.join()
     else:
         results = [_run_shard(t) for t in tasks]
     for r in results:
